@@ -58,6 +58,9 @@ class Binding:
         """Optional direct effect of a call: return list of states or None."""
         return None
 
+    def assert_may_fail(self, a: ast.Assert, f: FuncInfo) -> bool:
+        return True
+
     def may_raise(self, call: ast.Call, f: FuncInfo) -> bool:
         """May a non-inlined call raise? Default: yes, except logging calls and a few total builtins."""
         t = norm(call.func)
@@ -128,6 +131,8 @@ class Interp:
 
     def eval_value(self, e, s: State, f: FuncInfo, var: str) -> list:
         """Possible domain values of a written expression."""
+        if callable(e):
+            return [e(sd(s))]
         if not isinstance(e, ast.AST):
             return [e]
         c = self.b.const(e, f, var)
@@ -241,7 +246,7 @@ class Interp:
                 for d, l in succ:
                     if l != "exc":
                         push(d, ps)
-            if isinstance(a, ast.Assert):
+            if isinstance(a, ast.Assert) and self.b.assert_may_fail(a, f):
                 raised = list(raised) + [st]
             self._exc(g, nid, list(raised), push, out)
         res = frozenset(out)
@@ -257,7 +262,10 @@ class Interp:
     def _apply_calls(self, n: Node, states: list[State], f: FuncInfo, depth: int):
         """Apply the domain effect of inlined callees occurring in node n (in source order)."""
         raised: list[State] = []
-        calls = sorted(n.calls(), key=lambda c: (getattr(c, "end_lineno", 0), getattr(c, "end_col_offset", 0)))
+        calls = n.calls()
+        if not calls:
+            return states, raised
+        calls = sorted(calls, key=lambda c: (getattr(c, "end_lineno", 0), getattr(c, "end_col_offset", 0)))
         for c in calls:
             nxt: list[State] = []
             for s in states:
